@@ -350,6 +350,25 @@ func GoExit() {
 	r.mu.Unlock()
 }
 
+// PreemptSoon asks for one extra preemption of the caller within the next
+// maxGap yield steps (drawn from the tape). Harnesses call it right before an
+// operation that creates in-flight state, so that faults land inside
+// operations rather than between them. Only the baton holder may call it.
+func PreemptSoon(maxGap int) {
+	r := active.Load()
+	if r == nil || maxGap <= 0 {
+		return
+	}
+	if gid() != r.curGID {
+		return
+	}
+	gap := int64(r.tape.Draw(uint32(maxGap))) + 1
+	if r.nextPre == 0 || r.steps+gap < r.nextPre {
+		r.nextPre = r.steps + gap
+		r.preLeft++ // does not consume the run's budget
+	}
+}
+
 // Stamp returns the next value of the run's global event sequence. Only the
 // baton holder may call it, so the order of stamps is the real-time order.
 func Stamp() int64 {
